@@ -112,6 +112,12 @@ fn run(f: &[String]) -> String {
             "num.show" => format!("{}", num(f[1])),
             "num.add" => format!("{}", &num(f[1]) + &num(f[2])),
             "num.mul" => format!("{}", &num(f[1]) * &num(f[2])),
+            "num.add_assign" => { let mut a = num(f[1]); a += &num(f[2]); format!("{}", a) }
+            "num.mul_assign" => { let mut a = num(f[1]); a *= &num(f[2]); format!("{}", a) }
+            "big.from_string" => match BigNum::from_string(f[1].to_string()) {
+                Ok(b) => format!("{}", b),
+                Err(e) => format!("ERR {}", e),
+            },
             "num.neg" => format!("{}", -&num(f[1])),
             "num.minus" => { let mut a = num(f[1]); a.minus(); format!("{}", a) }
             "num.flip" => { let mut a = num(f[1]); a.flip(); format!("{}", a) }
